@@ -79,12 +79,20 @@ class SimChip(object):
     def background(addr):
         return (addr * 7 + (addr >> 8) * 13 + 5) & 0xff
 
-    def read(self, addr, n):
+    @staticmethod
+    def core_local(addr):
+        """instruction and data memory tightly coupled to each core: every core has its own at the same addresses"""
+        return 0 <= addr < 0x8000 or 0x00400000 <= addr < 0x00410000
+
+    def read(self, addr, n, p=0):
+        if p and self.core_local(addr):
+            return bytes(self.mem.get((p, a), self.background(a + 31 * p)) for a in range(addr, addr + n))
         return bytes(self.mem.get(a, self.background(a)) for a in range(addr, addr + n))
 
-    def write(self, addr, data):
+    def write(self, addr, data, p=0):
+        local = p and self.core_local(addr)
         for i, b in enumerate(bytearray(data)):
-            self.mem[addr + i] = b
+            self.mem[(p, addr + i) if local else addr + i] = b
 
     def largest_free_rtr_block(self):
         best = cur = 0
@@ -251,7 +259,7 @@ class SimMachine(object):
             return RC_LEN
         if typ not in (0, 1, 2) or not self._aligned(addr, n, typ):
             return RC_ARG
-        return (), chip.read(addr, n)
+        return (), chip.read(addr, n, p)
 
     def _cmd_3(self, chip, p, a, data, rec):          # write
         addr, n, typ = a
@@ -259,7 +267,7 @@ class SimMachine(object):
             return RC_LEN
         if typ not in (0, 1, 2) or not self._aligned(addr, n, typ):
             return RC_ARG
-        chip.write(addr, data)
+        chip.write(addr, data, p)
         self._after_write(chip, addr, n)
         return (), b""
 
@@ -270,7 +278,7 @@ class SimMachine(object):
         addr, word, size = a
         if addr % 4 or size % 4:
             return RC_ARG
-        chip.write(addr, struct.pack("<I", word) * (size // 4))
+        chip.write(addr, struct.pack("<I", word) * (size // 4), p)
         return (), b""
 
     def _neighbour(self, chip, link):
